@@ -14,7 +14,11 @@ import common, tablelib as tl, tablerun as tr
 LAYERS = {2: ('grid', 'property: the grid after the call is not what the same call gives on the list-of-lists grid'),
           4: ('read', 'property: a read (size / value / row / matrix / column) differs from the grid\'s answer'),
           5: ('map', 'property: a private position map (_tmap/_cmap/_rmap of a cached row) is not the map of the XML, so reads and later calls address the wrong run'),
-          10: ('raised', 'property: the call raised on an input of the property\'s domain')}
+          10: ('raised', 'property: the call raised on an input of the property\'s domain'),
+          13: ('accepted', 'property: the call was accepted although its coordinate does not resolve / its list has the wrong length'),
+          15: ('raised-changed', 'property: the call raised after having changed the table (tables with table:table-columns / header wrappers)'),
+          16: ('group', 'property: a table:table-row-group / table:table-column-group element was changed by a call that cannot address it'),
+          14: ('live', 'property: a Row-level call on a live row handle did not rewrite exactly the stored run that holds the row')}
 SOFT = {3: 'the model returned None on an implementation state (C01_step says it cannot on a well-formed one)',
         8: 'the model\'s own grid differs from the grid step (a theorem instance fails)',
         11: 'state outside the modelled fragment', 12: 'initial state invalid'}
@@ -31,7 +35,7 @@ MODELLED = ('element_cached.py: find_odf_idx, make_cache_map, set/insert/delete_
 
 
 def run(tier, seed, replay=None):
-    return tr.run_table_check('C01', tier, seed, replay, 'chk01', LAYERS, SOFT, tl.OPS_CORE, trusted=TRUSTED, modelled=MODELLED, extra_targets=('Tablechk',),
+    return tr.run_table_check('C01', tier, seed, replay, 'chk01', LAYERS, SOFT, tl.OPS_CORE, trusted=TRUSTED, modelled=MODELLED, extra_targets=('Tablechk', 'TableExtchk', 'Tablexml2chk'),
                               assumptions=['operations carry repeats >= 1 and integer coordinates of either sign',
                                            'tables consist of table:table-column elements followed by table:table-row elements'])
 
